@@ -240,7 +240,7 @@ func classify(c Case) (bool, []string) {
 }
 
 func TestGeometry(t *testing.T) {
-	harness.Rapid(t, harness.N(15000, 16*40000), func(t *rapid.T) {
+	harness.Rapid(t, harness.N(15000, 16*240000), func(t *rapid.T) {
 		c := genCase(t)
 		nt, labels := classify(c)
 		subGeom.See(c, nt, harness.HashJSON(c), labels...)
